@@ -138,8 +138,15 @@ def _cfac(sv, n):
     # needle-like covariance (second singular value small against the first): the quartic's roots spread over orders of
     # magnitude and the closed-form solve loses digits in proportion - continuous in the ratio, 256 for ratios >= 0.02
     c = 256.0 * min(32.0, max(1.0, 0.02 / max(sv[1] / sv[0], 1e-12)))
-    if sv[2] / sv[0] < 1e-4:
+    if abs(sv[2]) / sv[0] < 1e-4:
         c = 8.0 / math.sqrt(oracle.EPS32)
+    # The eigenvalues of the QCP matrix are s1+s2+s3', s1-s2-s3', -s1+s2-s3', -s1-s2+s3' (s3' signed).  For mirror-like pairs
+    # with s2 = -s3' the largest one is a double root (precision sqrt(eps), like the planar class); if s1 = s2 as well
+    # (isotropic, e.g. vertices of a cube against other vertices) it is a triple root, resolved to eps^(1/3) only.
+    if (sv[1] + sv[2]) / sv[0] < 1e-3:
+        c = max(c, 8.0 / math.sqrt(oracle.EPS32))
+        if (sv[0] - sv[1]) / sv[0] < 1e-3:
+            c = max(c, 0.5 * oracle.EPS32 ** (1.0 / 3.0) / oracle.EPS32)
     return c * max(1.0, math.sqrt(n / 16.0))
 
 
